@@ -62,6 +62,46 @@ def mask(text):
     return ''.join(out)
 
 
+def strip_comments(text):
+    """Remove line and block comments (string / char literals are left alone); newlines are kept."""
+    out = []
+    n = len(text)
+    i = 0
+    while i < n:
+        c = text[i]
+        if c == '/' and i + 1 < n and text[i + 1] == '/':
+            j = text.find('\n', i)
+            if j < 0:
+                j = n
+            i = j
+        elif c == '/' and i + 1 < n and text[i + 1] == '*':
+            depth = 1
+            j = i + 2
+            while j < n and depth > 0:
+                if text.startswith('/*', j):
+                    depth += 1
+                    j += 2
+                elif text.startswith('*/', j):
+                    depth -= 1
+                    j += 2
+                else:
+                    j += 1
+            out.append('\n' * text.count('\n', i, j))
+            i = j
+        elif c == '"' or (c in 'br' and _is_str_prefix(text, i)):
+            j = _skip_string(text, i)
+            out.append(text[i:j])
+            i = j
+        elif c == "'":
+            j = _skip_char_or_lifetime(text, i)
+            out.append(text[i:j])
+            i = j
+        else:
+            out.append(c)
+            i += 1
+    return ''.join(out)
+
+
 def _is_str_prefix(text, i):
     # b"..", r"..", r#".."#, br"..", br#".."#, b'x'
     if i > 0 and (text[i - 1].isalnum() or text[i - 1] == '_'):
